@@ -137,6 +137,8 @@ ROWS = [
     ('(a,  # c1\n b,\n)', 'expr', _HE), ('[ "é" , b ]', 'expr', _HE), ('a[b]', 'expr', _HE), ('(yield)', 'expr', _HE), ('a if b else c', 'expr', _HE),
     ('lambda: a', 'expr', _HE), ('(a := b)', 'expr', _HE), ('a, *b', 'expr', _HE), ('[a, *b]', 'expr', _HE),
     ('d, a if b else c', 'expr', _HE), ('[d, lambda: x]', 'expr', _HE), ('(d, e := f)', 'expr', _HE), ('[a if b else c]', 'expr', _HE), ('f(a if b else c, *d)', 'expr', _HE),
+    ('(f)(a)', 'expr', _HE), ('{...: a}', 'expr', _HE), ('(a | b) | c', 'expr', _HE), ('a | (b | c)', 'expr', _HE), ('f(x for x in y)', 'expr', _HE), ('(a.b)(c, d=e)', 'expr', _HE),
+    ('**P, T', '_type_params', None), ('T, **P', '_type_params', None),
     ('*a', 'expr_arglike', None), ('a:b', 'expr_slice', None), ('*a', 'expr_all', None), ('*a,', 'expr_all', None), ('*a\n ,', 'expr_all', None), ('*ab  # c\n  ,', 'expr_all', None), ('a:b, *c', 'expr_all', None),
     ('*not a', 'expr_all', None), ('a:b:c', 'expr_all', None), ('*a\n ,', 'all', None), ('a = 1', 'all', None), ('a, b', 'all', None), ('a = b', 'stmt', None), ('a', 'stmt', None), ('a, b', 'stmt', None), ('a\nb', 'exec', None), ('a', 'exec', None),
     ('a = b =', '_Assign_targets', None), ('a, b = c.d =', '_Assign_targets', None), ('@a\n@b.c', '_decorator_list', None), ('@a(b)', '_decorator_list', None),
@@ -335,7 +337,7 @@ def _mk_row(ri):
                 if r2 is not None:
                     d1, d2 = ast.dump(r.a), ast.dump(r2.a)
                     check(d1 == d2, sig + f'.pure_ast_and_formatted_operand_coerce_differently:{frag}:{smode}:Tuple!=List' if d1.replace('List(', 'Tuple(') == d2.replace('List(', 'Tuple(')
-                          else sig + '.pure_ast_and_formatted_operand_coerce_differently', (where, r.src, r2.src, pc._first_diff(d2, d1)))
+                          else sig + f'.pure_ast_and_formatted_operand_coerce_differently:{frag}:{smode}', (where, r.src, r2.src, pc._first_diff(d2, d1)))
         cover('ok')
     return fn
 
